@@ -13,7 +13,9 @@ PROP = dict(
     level_text="Theorems over all schedules: C36_all_closed_modulo_findings: whenever Close was called and nothing in the "
                "broker can move any more and no handler still waits for the CONNECT of a silent client "
                "(KF_C36_silent_connection, refuted for the current code by C36_all_closed_refuted and reproduced on the "
-               "real code: Close blocks in ClientsWg.Wait), Close has returned, the listener is closed, every "
+               "real code: Close blocks in ClientsWg.Wait) and no MQTT 5 client's Maximum Packet Size is below the 27 bytes "
+               "of the shutdown DISCONNECT (KF_C36_disconnect_too_large), for EVERY assignment of write outcomes (oracle "
+               "bit per connection: DisconnectClient = try to write, ALWAYS stop), Close has returned, the listener is closed, every "
                "connection that reached the broker is closed, every MQTT 5 client that had been told it was connected "
                "was sent DISCONNECT 0x8B, and no handler is alive; C36_stops_accepting / C36_no_spawn_after_close; "
                "C36_waits_modulo_findings: Close returns only after every handler has finished unless a spawned handler "
@@ -31,7 +33,7 @@ PROP = dict(
                "starts from).  Trusted: Coq kernel, extraction, OCaml driver, Go harness incl. harness/fsched (goroutine "
                "identity and blocked-state detection from runtime.Stack).",
     engines=[dict(hx="shutdown")],
-    theorems=["C36_all_closed_modulo_findings", "C36_all_closed_refuted", "C36_stops_accepting", "C36_no_spawn_after_close", "C36_waits_modulo_findings",
+    theorems=["C36_all_closed_modulo_findings", "C36_all_closed_refuted", "C36_all_closed_refuted_too_large", "C36_stops_accepting", "C36_no_spawn_after_close", "C36_waits_modulo_findings",
               "C36_waits_refuted", "C36_refuted_prefix"],
     model_files="coq/Base/Sched.v coq/Conc/Shutdown.v",
     rule="forced schedules, real TCP listener: (1) every combination of positions {not yet dialed, spawned before "
@@ -40,7 +42,8 @@ PROP = dict(
          "two connections at the moment Close starts (64; silent clients later send the rest, go away or stay silent), the remaining steps of the closer (end flag, snapshot, disconnect+close listener+Wait, "
          "return) and of the handlers randomly interleaved, late dials (full, silent, partial CONNECT) and clients leaving included (64 schedules, "
          "thorough 512); (2) the 36 position pairs with Close run through without any handler moving; (3) 20 "
-         "(thorough 1200) random schedules with three connections; (4) a dial after Close returned.  Every schedule ends "
+         "(thorough 1200) random schedules with three connections; (4) a dial after Close returned.  Connections carry a flavour: MQTT 5 Maximum Packet Size 25 / 26 / 27 / 1000, an injected write fault "
+         "on DISCONNECT packets (broker-side net.Conn wrapper), or none.  Every schedule ends "
          "by letting everything that can move run (quiescence).  Observed after every action: where every handler and "
          "Close are; at the end: per client dial result, success CONNACK, DISCONNECT (0x8B for v5), connection closed.  "
          "non-trivial = Close was called and at least one connection reached the broker",
